@@ -590,57 +590,90 @@ structure BlockB where
   fusedQuantize : Bool
 deriving Repr, DecidableEq
 
+/-- `npu_op.ifm`: feature map of the command's IFM, extent of the IFM box (depth by block type), IFM quantisation -/
+def commonIfm (c : StripeD) (arch : ArchD) : Except Err FmB :=
+  match createFm c.ifm c.ifmBox arch c.ifmShape0 c.op.tileOffsIfm0 none false with
+  | .error e => .error e
+  | .ok ifm0 =>
+    let blk := blockOf c.ifmBox
+    .ok (withQuant { ifm0 with shape := ⟨blk.height, blk.width, getIfmDepth c.op.type.blockType c.ifmBox c.ofmBox⟩ } (getIfmQuant c c.ifm))
+
+/-- `npu_op.ofm` -/
+def commonOfm (c : StripeD) (arch : ArchD) : Except Err FmB :=
+  match createFm c.ofm c.ofmBox arch c.ofmShape0 c.op.tileOffsOfm c.op.ofmStrideMult true with
+  | .error e => .error e
+  | .ok ofm0 => .ok (withQuant { ofm0 with shape := blockOf c.ofmBox } (getOfmQuant c c.ofm))
+
+/-- `npu_op.weights, npu_op.biases` -/
+def commonWeights (c : StripeD) (arch : ArchD) : Except Err (List AddrRange × List AddrRange) :=
+  match c.weight with
+  | none => .ok ([], [])
+  | some w => match c.weightDepth with
+    | none => .error .type
+    | some d => createWeights w d c.scale arch
+
+/-- padding, (possibly re-pointed) IFM and kernel: only for non-elementwise operations -/
+def commonPadding (c : StripeD) (kind : Kind) (ifm : FmB) : Except Err (Option Padding × FmB × Option Kernel) :=
+  if c.op.type.isElementwise then .ok (none, ifm, none)
+  else match createPadding c (kind == .depthwise) ifm.fm with
+    | .error e => .error e
+    | .ok (p, f) => .ok (some p, { ifm with fm := f }, some c.op.kernel)
+
 /-- what `set_common_op_fields` assigns (the kind-specific fields are filled by the callers) -/
-def setCommon (fo : FloatOps) (c : StripeD) (arch : ArchD) (kind : Kind) : Except Err BlockB := do
-  let op := c.op
-  let ifmBlk := blockOf c.ifmBox
-  let ifmDepth := getIfmDepth op.type.blockType c.ifmBox c.ofmBox
-  let ifm0 ← createFm c.ifm c.ifmBox arch c.ifmShape0 op.tileOffsIfm0 none false
-  let ifm1 := { ifm0 with shape := ⟨ifmBlk.height, ifmBlk.width, ifmDepth⟩ }
-  let ifmB := withQuant ifm1 (getIfmQuant c c.ifm)
-  let outBlk := blockOf c.ofmBox
-  let ofm0 ← createFm c.ofm c.ofmBox arch c.ofmShape0 op.tileOffsOfm op.ofmStrideMult true
-  let ofmB := withQuant { ofm0 with shape := outBlk } (getOfmQuant c c.ofm)
-  let (ws, bs) ← match c.weight with
-    | none => pure ([], [])
-    | some w => match c.weightDepth with
-      | none => throw Err.type
-      | some d => createWeights w d c.scale arch
-  let act ← createNpuActivation fo op (useZeroPoint0 c c.ofm.dtype false)
-  let fq := fusedQuantizeOf c.psOps
-  let rounding := getRoundingMode op fq
-  let (bh, bw, _, bd) := c.blockConfig
-  let (padding, ifmFm, kernel) ← if !op.type.isElementwise then do
-      let (p, f) ← createPadding c (kind == .depthwise) ifmB.fm
-      pure (some p, f, some op.kernel)
-    else pure (none, ifmB.fm, none)
-  if op.resampling > 2 then throw .key
-  pure { kind := kind, ifm := { ifmB with fm := ifmFm }, ofm := ofmB, kernel := kernel, padding := padding,
-         weights := ws, biases := bs, act := act, blockConfig := ⟨bh, bw, bd⟩, rounding := rounding,
-         upscale := op.resampling, fusedQuantize := fq }
+def setCommon (fo : FloatOps) (c : StripeD) (arch : ArchD) (kind : Kind) : Except Err BlockB :=
+  match commonIfm c arch with
+  | .error e => .error e
+  | .ok ifmB =>
+    match commonOfm c arch with
+    | .error e => .error e
+    | .ok ofmB =>
+      match commonWeights c arch with
+      | .error e => .error e
+      | .ok (ws, bs) =>
+        match createNpuActivation fo c.op (useZeroPoint0 c c.ofm.dtype false) with
+        | .error e => .error e
+        | .ok act =>
+          match commonPadding c kind ifmB with
+          | .error e => .error e
+          | .ok (padding, ifmFinal, kernel) =>
+            if c.op.resampling > 2 then .error .key else
+            .ok { kind := kind, ifm := ifmFinal, ofm := ofmB, kernel := kernel, padding := padding,
+                  weights := ws, biases := bs, act := act,
+                  blockConfig := ⟨c.blockConfig.1, c.blockConfig.2.1, c.blockConfig.2.2.2⟩,
+                  rounding := getRoundingMode c.op (fusedQuantizeOf c.psOps), upscale := c.op.resampling,
+                  fusedQuantize := fusedQuantizeOf c.psOps }
 
 /-! ## the four block operations -/
 
-def createConv2d (fo : FloatOps) (c : StripeD) (arch : ArchD) : Except Err BlockB := do
-  let b ← setCommon fo c arch .conv
-  if c.op.type.blockType == .vectorProduct then pure { b with partKernelFirst := false }
-  else match c.weight with
-    | none => throw .type      -- `None.src_tensor`
-    | some w => pure { b with partKernelFirst := w.partKernelFirst }
+def createConv2d (fo : FloatOps) (c : StripeD) (arch : ArchD) : Except Err BlockB :=
+  match setCommon fo c arch .conv with
+  | .error e => .error e
+  | .ok b =>
+    if c.op.type.blockType == .vectorProduct then .ok { b with partKernelFirst := false }
+    else match c.weight with
+      | none => .error .type      -- `None.src_tensor`
+      | some w => .ok { b with partKernelFirst := w.partKernelFirst }
 
 def createDepthwise (fo : FloatOps) (c : StripeD) (arch : ArchD) : Except Err BlockB :=
   setCommon fo c arch .depthwise
 
-def createPool (fo : FloatOps) (c : StripeD) (arch : ArchD) : Except Err BlockB := do
-  let op := c.op
-  let sub : Nat ← if op.type.isMaxPool then pure 0
-    else if op.type.isAvgPool || op.type.isResize then pure 1
-    else if op.type == .reduceSum then pure 2
-    else throw Err.assert
-  let b ← setCommon fo c arch .pool
-  match op.explicitScaling with
-  | some e => pure { b with subOp := sub, rescaleKind := if e.perChannel then 3 else 2, rescale := some (e.multiplier, e.shift) }
-  | none => pure { b with subOp := sub }
+/-- `pool_op` of `create_npu_pool_op`: ordinal in `api.NpuPoolingOp` (MAX, AVERAGE, REDUCE_SUM) -/
+def poolSubOp (t : OpT) : Except Err Nat :=
+  if t.isMaxPool then .ok 0
+  else if t.isAvgPool || t.isResize then .ok 1
+  else if t == .reduceSum then .ok 2
+  else .error .assert
+
+def createPool (fo : FloatOps) (c : StripeD) (arch : ArchD) : Except Err BlockB :=
+  match poolSubOp c.op.type with
+  | .error e => .error e
+  | .ok sub =>
+    match setCommon fo c arch .pool with
+    | .error e => .error e
+    | .ok b =>
+      match c.op.explicitScaling with
+      | some e => .ok { b with subOp := sub, rescaleKind := if e.perChannel then 3 else 2, rescale := some (e.multiplier, e.shift) }
+      | none => .ok { b with subOp := sub }
 
 /-- the mutation of `cmd` and `ps.ifm_shapes` in the swap branch -/
 def swapOperands (c : StripeD) : Except Err StripeD :=
@@ -649,83 +682,146 @@ def swapOperands (c : StripeD) : Except Err StripeD :=
     .ok { c with ifm := t2, ifm2 := some c.ifm, ifmBox := b2, ifm2Box := some c.ifmBox, ifmShape0 := s1, ifmShape1 := some c.ifmShape0 }
   | _, _, _ => .error .type
 
-def createElementwise (fo : FloatOps) (c0 : StripeD) (arch : ArchD) : Except Err BlockB := do
-  let op := c0.op
-  let sub ← match elementwiseOpMap op.type with
-    | some s => pure s
-    | none => throw Err.assert
-  -- binary part: decide the operand order, build IFM2
-  let (c, reversed, ifm2B, scalar) ← if !isUnaryEw sub then do
-      let t2 ← match c0.ifm2 with | some t => pure t | none => throw Err.type
-      let ifmShape := if c0.ifm.isScalar then none else some c0.ifmShape0
-      let ifm2Shape ← if t2.isScalar then pure none else
-        match c0.ifmShape1 with | some s => pure (some s) | none => throw Err.index
-      let (c, reversed) ←
-        if c0.reversedOperands then
-          if !correctOrder ifmShape ifm2Shape then throw Err.assert else pure (c0, true)
-        else if !correctOrder ifmShape ifm2Shape then do
-          let c ← swapOperands c0
-          pure (c, true)
-        else pure (c0, false)
-      let t2 ← match c.ifm2 with | some t => pure t | none => throw Err.type
-      let b2 ← match c.ifm2Box with | some b => pure b | none => throw Err.type
-      let s1 ← match c.ifmShape1 with | some s => pure s | none => throw Err.index
-      let fm2 ← createFm t2 b2 arch s1 op.tileOffsIfm1 none false
-      let fm2B := withQuant fm2 (getIfmQuant c t2)
+/-- `ifm_shape` / `ifm2_shape` of `create_npu_elementwise_op`: `None` for a scalar tensor -/
+def ewIfmShape (c : StripeD) : Option TensorAddr.S4 := if c.ifm.isScalar then none else some c.ifmShape0
+
+def ewIfm2Shape (c : StripeD) (t2 : TensD) : Except Err (Option TensorAddr.S4) :=
+  if t2.isScalar then .ok none else
+  match c.ifmShape1 with
+  | some s => .ok (some s)
+  | none => .error .index
+
+/-- the operand order: the command after the (possible) swap and `npu_op.reversed_operands` -/
+def ewOrder (c0 : StripeD) : Except Err (StripeD × Bool) :=
+  match c0.ifm2 with
+  | none => .error .type
+  | some t2 =>
+    match ewIfm2Shape c0 t2 with
+    | .error e => .error e
+    | .ok ifm2Shape =>
+      if c0.reversedOperands then
+        if correctOrder (ewIfmShape c0) ifm2Shape then .ok (c0, true) else .error .assert
+      else if correctOrder (ewIfmShape c0) ifm2Shape then .ok (c0, false)
+      else match swapOperands c0 with
+        | .ok c => .ok (c, true)
+        | .error e => .error e
+
+/-- `npu_op.ifm2` (with its quantisation and extent) and `npu_op.ifm2_scalar`, from the command after `ewOrder` -/
+def ewIfm2 (c : StripeD) (arch : ArchD) : Except Err (FmB × Option Fl) :=
+  match c.ifm2, c.ifm2Box, c.ifmShape1 with
+  | some t2, some b2, some s1 =>
+    match createFm t2 b2 arch s1 c.op.tileOffsIfm1 none false with
+    | .error e => .error e
+    | .ok fm2 =>
+      let f := withQuant fm2 (getIfmQuant c t2)
       if t2.isScalar then
-        let v ← match t2.scalar with | some v => pure v | none => throw Err.assert
-        pure (c, reversed, some { fm2B with fm := { fm2B.fm with shape := ⟨0, 0, 0⟩ } }, some v)
-      else
-        pure (c, reversed, some { fm2B with fm := { fm2B.fm with shape := blockOf b2 } }, none)
-    else pure (c0, false, none, none)
-  let b ← setCommon fo c arch .elementwise
-  let b := { b with subOp := sub, ifm2 := ifm2B, scalar := scalar, reversed := reversed }
-  -- output scale override
+        match t2.scalar with
+        | some v => .ok ({ f with fm := { f.fm with shape := ⟨0, 0, 0⟩ } }, some v)
+        | none => .error .assert
+      else .ok ({ f with fm := { f.fm with shape := blockOf b2 } }, none)
+  | none, _, _ => .error .type
+  | some _, none, _ => .error .type
+  | some _, some _, none => .error .index
+
+/-- what the "output scale needs to be overridden" part of `create_npu_elementwise_op` changes -/
+structure EwUpd where
+  rescaleKind : Nat
+  rescale : Option (List Int × List Int)
+  act : ActB
+  ofm : FmB
+deriving Repr, DecidableEq
+
+/-- `output_scale`: outer `none` = the explicit-scaling branch (no `output_scale` at all), `some none` = `None` -/
+def ewOutputScale (fo : FloatOps) (op : OpD) (b : BlockB) : Except Err (Option (Option Fl)) :=
   let isAMS := op.type == .add || op.type == .mul || op.type == .sub
-  let (b, outputScale) ← match op.explicitScaling with
-    | some e =>
-      if e.perChannel then throw Err.assert
-      if !isAMS then throw Err.assert
-      match e.multiplier, e.shift with
-      | m :: _, s :: _ => pure ({ b with rescaleKind := 1, rescale := some ([m], [s]) }, (none : Option (Option Fl)))
-      | _, _ => throw Err.index
-    | none =>
-      if op.type == .add && op.origType.isResize then
-        match b.ifm2 with
-        | some f2 => if f2.fm.hasQuant then pure (b, some f2.scale) else throw Err.type
-        | none => throw Err.type
-      else if op.type == .abs then
-        if !(b.ifm.fm.hasQuant && b.ofm.fm.hasQuant) then throw Err.type
-        match b.ifm.scale, b.ofm.scale with
-        | some a, some o => match fo.div a o with
-          | some r => pure (b, some (some r))
-          | none => throw Err.zerodiv
-        | _, _ => throw Err.type
-      else if op.type == .leakyRelu then
-        match op.alpha with
-        | some a => pure (b, some (some a))
-        | none => throw Err.key
-      else if isAMS then
-        match op.activation with
-        | some a => if a.faf == .sigmoid || a.faf == .tanh then pure (b, some (some fo.inv3000)) else pure (b, none)
-        | none => pure (b, none)
-      else pure (b, none)
-  match outputScale with
-  | none | some none => pure b          -- `if output_scale is not None`
-  | some (some os) =>
-    if !b.ofm.fm.hasQuant then throw Err.type    -- `ofm_quant.scale_f32` of None
+  match op.explicitScaling with
+  | some e =>
+    if e.perChannel then .error .assert
+    else if !isAMS then .error .assert
+    else .ok none
+  | none =>
+    if op.type == .add && op.origType.isResize then
+      match b.ifm2 with
+      | some f2 => if f2.fm.hasQuant then .ok (some f2.scale) else .error .type
+      | none => .error .type
+    else if op.type == .abs then
+      if !(b.ifm.fm.hasQuant && b.ofm.fm.hasQuant) then .error .type else
+      match b.ifm.scale, b.ofm.scale with
+      | some a, some o => match fo.div a o with
+        | some r => .ok (some (some r))
+        | none => .error .zerodiv
+      | _, _ => .error .type
+    else if op.type == .leakyRelu then
+      match op.alpha with
+      | some a => .ok (some (some a))
+      | none => .error .key
+    else if isAMS then
+      match op.activation with
+      | some a => if a.faf == .sigmoid || a.faf == .tanh then .ok (some (some fo.inv3000)) else .ok (some none)
+      | none => .ok (some none)
+    else .ok (some none)
+
+/-- a clamp bound re-expressed in the overriding scale: `output_scale * (quantise_float32(v, ofm scale, zp) - zp)` -/
+def rescaleBound (fo : FloatOps) (os s : Fl) (zp : Int) (v : Option Fl) : Except Err (Option Fl) :=
+  match v with
+  | none => .ok none
+  | some x => match quantiseF32 fo x s zp with
+    | .ok q => .ok (some (fo.mulInt os 0 (q - zp)))
+    | .error e => .error e
+
+def ewFinish (fo : FloatOps) (op : OpD) (b : BlockB) : Except Err EwUpd :=
+  match ewOutputScale fo op b with
+  | .error e => .error e
+  | .ok none =>
+    match op.explicitScaling with
+    | some e => match e.multiplier, e.shift with
+      | m :: _, s :: _ => .ok ⟨1, some ([m], [s]), b.act, b.ofm⟩
+      | _, _ => .error .index
+    | none => .error .assert      -- unreachable: `ewOutputScale` answers `none` only for explicit scaling
+  | .ok (some none) => .ok ⟨b.rescaleKind, b.rescale, b.act, b.ofm⟩          -- `if output_scale is not None`
+  | .ok (some (some os)) =>
+    if !b.ofm.fm.hasQuant then .error .type else          -- `ofm_quant.scale_f32` of None
     let zp := b.ofm.fm.zeroPoint
-    let act ← match b.ofm.scale with
-      | some s =>
-        if b.act.opType = 0 && !fo.eq os s then do
-          let mut mn := b.act.min
-          let mut mx := b.act.max
-          if let some v := mn then mn := some (fo.mulInt os 0 ((← quantiseF32 fo v s zp) - zp))
-          if let some v := mx then mx := some (fo.mulInt os 0 ((← quantiseF32 fo v s zp) - zp))
-          pure { b.act with min := mn, max := mx }
-        else pure b.act
-      | none => pure b.act
-    pure { b with act := act, ofm := ⟨{ b.ofm.fm with hasQuant := true, zeroPoint := zp, scaled := true }, some os⟩ }
+    let newOfm : FmB := ⟨{ b.ofm.fm with hasQuant := true, zeroPoint := zp, scaled := true }, some os⟩
+    match b.ofm.scale with
+    | some s =>
+      if b.act.opType = 0 && !fo.eq os s then
+        match rescaleBound fo os s zp b.act.min, rescaleBound fo os s zp b.act.max with
+        | .ok mn, .ok mx => .ok ⟨b.rescaleKind, b.rescale, { b.act with min := mn, max := mx }, newOfm⟩
+        | .error e, _ => .error e
+        | _, .error e => .error e
+      else .ok ⟨b.rescaleKind, b.rescale, b.act, newOfm⟩
+    | none => .ok ⟨b.rescaleKind, b.rescale, b.act, newOfm⟩
+
+def applyUpd (b : BlockB) (u : EwUpd) : BlockB :=
+  { b with rescaleKind := u.rescaleKind, rescale := u.rescale, act := u.act, ofm := u.ofm }
+
+def createElementwise (fo : FloatOps) (c0 : StripeD) (arch : ArchD) : Except Err BlockB :=
+  match elementwiseOpMap c0.op.type with
+  | none => .error .assert
+  | some sub =>
+    if isUnaryEw sub then
+      match setCommon fo c0 arch .elementwise with
+      | .error e => .error e
+      | .ok b0 =>
+        let b := { b0 with subOp := sub }
+        match ewFinish fo c0.op b with
+        | .error e => .error e
+        | .ok u => .ok (applyUpd b u)
+    else
+      match ewOrder c0 with
+      | .error e => .error e
+      | .ok (c, rev) =>
+        match ewIfm2 c arch with
+        | .error e => .error e
+        | .ok (f2, sc) =>
+          match setCommon fo c arch .elementwise with
+          | .error e => .error e
+          | .ok b0 =>
+            let b := { b0 with subOp := sub, ifm2 := some f2, scalar := sc, reversed := rev }
+            match ewFinish fo c0.op b with
+            | .error e => .error e
+            | .ok u => .ok (applyUpd b u)
 
 /-! ## `create_dma_op` -/
 
